@@ -273,6 +273,14 @@ def worldOp1 (st : Option World) (op : String) (args tr : List String) : Option 
     match srvIdxW w name with
     | some si => let (w, s) := tail (connReset w si); (some w, "ok" ++ s)
     | none => (some w, "bad-op")
+  | "srvconn", name :: evs, some w =>
+    match srvIdxW w name, parseEvs evs with
+    | some si, some evs =>
+      if ((getSrv w si).map (·.conf.type)) ≠ some 2 then (some w, "bad-op") else
+      let w := withOracle w t
+      let (w, s) := tail (srvConn w si evs)
+      (some w, "srvconn" ++ s)
+    | _, _ => (some w, "bad-op")
   | "rmserver", [name], some w =>
     match srvIdxW w name with
     | some si => let (w, s) := tail (rmserver w si); (some w, "gone" ++ s)
@@ -472,6 +480,7 @@ def opsOf (w : World) (op : String) (args tr : List String) : Option (List World
   | "tick", [n] => n.toNat?.map fun n => [.tick n]
   | "reset", [name] => (srvIdxW w name).map fun si => [.reset si]
   | "rmserver", [name] => (srvIdxW w name).map fun si => [.rmserver si]
+  | "srvconn", name :: evs => (match srvIdxW w name, parseEvs evs with | some si, some evs => some [orc, .srvconn si evs] | _, _ => none)
   | "srvstate", [name, stt, lost] =>
     (match srvIdxW w name, stt.toNat?, lost.toNat? with | some si, some a, some b => some [.srvstate si a b] | _, _, _ => none)
   | "pop", [k] => k.toNat?.map fun k => [.pop k]
